@@ -54,8 +54,16 @@ const ID_ALPHABET: [char; 62] = [
 #[derive(Debug, Clone, DataSize, Decode, Encode)]
 pub struct IdMap<HandleType> {
     /// The actual map
+    #[cfg(not(stam_verif))]
     #[n(0)] //these macros are field index numbers for cbor binary (de)serialisation
     data: HashMap<String, HandleType>,
+    #[cfg(stam_verif)]
+    #[n(0)]
+    data: HashMap<
+        String,
+        HandleType,
+        std::hash::BuildHasherDefault<std::collections::hash_map::DefaultHasher>,
+    >,
 
     /// A prefix that automatically generated IDs will get when added to this map
     #[n(1)]
@@ -72,7 +80,10 @@ where
 {
     fn default() -> Self {
         Self {
+            #[cfg(not(stam_verif))]
             data: HashMap::new(),
+            #[cfg(stam_verif)]
+            data: HashMap::default(),
             autoprefix: "_".to_string(),
             resolve_temp_ids: true,
         }
